@@ -38,6 +38,8 @@ type cprog struct {
 	Name    string
 	Plan    Plan
 	Threads [][]HOp
+	Pre     []HOp // executed sequentially before the threads start
+	Post    []HOp // executed sequentially after all threads finished
 }
 
 func (p cprog) String() string {
@@ -100,7 +102,7 @@ func outcomeOf(rec *vlib.Rec, errs []error) string {
 
 // uidOf numbers operations thread-major.
 func (p cprog) uids() [][]int {
-	n := 0
+	n := len(p.Pre)
 	out := make([][]int, len(p.Threads))
 	for t, ops := range p.Threads {
 		for range ops {
@@ -140,11 +142,18 @@ func (p cprog) admissible() map[string]string {
 		pos := make([]int, len(p.Threads))
 		var errs []error
 		var desc []string
+		for i, op := range p.Pre {
+			errs = append(errs, applyOp(tr, p.Plan, op, i))
+		}
+		defer func() {}()
 		for _, t := range order {
 			op := p.Threads[t][pos[t]]
 			errs = append(errs, applyOp(tr, p.Plan, op, uids[t][pos[t]]))
 			desc = append(desc, op.String())
 			pos[t]++
+		}
+		for i, op := range p.Post {
+			errs = append(errs, applyOp(tr, p.Plan, op, p.postUID(i)))
 		}
 		o := outcomeOf(r, errs)
 		if _, ok := out[o]; !ok {
@@ -164,6 +173,9 @@ func (p cprog) instance() ([]func(), func() string) {
 	var mu sync.Mutex
 	var errs []error
 	var fns []func()
+	for i, op := range p.Pre {
+		errs = append(errs, applyOp(tr, p.Plan, op, i))
+	}
 	for t := range p.Threads {
 		t := t
 		fns = append(fns, func() {
@@ -175,7 +187,20 @@ func (p cprog) instance() ([]func(), func() string) {
 			}
 		})
 	}
-	return fns, func() string { return outcomeOf(r, errs) }
+	return fns, func() string {
+		for i, op := range p.Post {
+			errs = append(errs, applyOp(tr, p.Plan, op, p.postUID(i)))
+		}
+		return outcomeOf(r, errs)
+	}
+}
+
+func (p cprog) postUID(i int) int {
+	n := len(p.Pre)
+	for _, t := range p.Threads {
+		n += len(t)
+	}
+	return n + i
 }
 
 func smallPrograms() []cprog {
@@ -187,15 +212,15 @@ func smallPrograms() []cprog {
 	CA := HOp{Kind: opClean, Cut: cutAll}
 	CN := HOp{Kind: opClean, Cut: cutNone}
 	return []cprog{
-		{"P1 login || (rec;ev;ev)", p2, [][]HOp{{L(0)}, {R(0), E(0), E(0)}}},
-		{"P2a P1 || cleanup(all)", p2, [][]HOp{{L(0)}, {R(0), E(0), E(0)}, {CA}}},
-		{"P2n P1 || cleanup(none)", p2, [][]HOp{{L(0)}, {R(0), E(0)}, {CN}}},
-		{"P3 login || rec || (rec';ev')", p2, [][]HOp{{L(0)}, {R(0)}, {R(1), E(1)}}},
-		{"P4 two logins || two recs", p2, [][]HOp{{L(0)}, {L(1)}, {R(0)}, {R(1)}}},
-		{"P5 login || (rec;cd)", p2, [][]HOp{{L(0)}, {R(0), D(0)}}},
-		{"P6 (login;login') || (rec;ev;rec';ev')", p2, [][]HOp{{L(0), L(1)}, {R(0), E(0), R(1), E(1)}}},
-		{"P7 login || (rec;ev) || login' || (rec';ev')", p2, [][]HOp{{L(0)}, {R(0), E(0)}, {L(1)}, {R(1), E(1)}}},
-		{"P8 login || (rec;ev;cd;ev)", p2, [][]HOp{{L(0)}, {R(0), E(0), D(0), E(0)}}},
+		{Name: "P1 login || (rec;ev;ev)", Plan: p2, Threads: [][]HOp{{L(0)}, {R(0), E(0), E(0)}}},
+		{Name: "P2a P1 || cleanup(all)", Plan: p2, Threads: [][]HOp{{L(0)}, {R(0), E(0), E(0)}, {CA}}},
+		{Name: "P2n P1 || cleanup(none)", Plan: p2, Threads: [][]HOp{{L(0)}, {R(0), E(0)}, {CN}}},
+		{Name: "P3 login || rec || (rec';ev')", Plan: p2, Threads: [][]HOp{{L(0)}, {R(0)}, {R(1), E(1)}}},
+		{Name: "P4 two logins || two recs", Plan: p2, Threads: [][]HOp{{L(0)}, {L(1)}, {R(0)}, {R(1)}}},
+		{Name: "P5 login || (rec;cd)", Plan: p2, Threads: [][]HOp{{L(0)}, {R(0), D(0)}}},
+		{Name: "P6 (login;login') || (rec;ev;rec';ev')", Plan: p2, Threads: [][]HOp{{L(0), L(1)}, {R(0), E(0), R(1), E(1)}}},
+		{Name: "P7 login || (rec;ev) || login' || (rec';ev')", Plan: p2, Threads: [][]HOp{{L(0)}, {R(0), E(0)}, {L(1)}, {R(1), E(1)}}},
+		{Name: "P8 login || (rec;ev;cd;ev)", Plan: p2, Threads: [][]HOp{{L(0)}, {R(0), E(0), D(0), E(0)}}},
 	}
 }
 
